@@ -88,6 +88,33 @@ def gen_case(rng, index, tier):
         while op.get('f') == 'f_fails':
             op = gen_op(rng, small=True)
         return dict(mode='enum', op=op, eseed=rng.randrange(1 << 30))
+    if rng.random() < 0.25:
+        # contention: three (or two) callers ask for the SAME entry at once, often with a wrapped function that fails (once or always)
+        op = rng.choice([dict(t='call', f='f_fails', args=[rng.choice([1, 2])], kw={}), dict(t='call', f='f_scalar', args=[rng.choice([1, 2])], kw={}),
+                         dict(t='call', f='f_dict', args=[3], kw={}), dict(t='iter', r='Count', args=[2, 1.0], m=3), gen_op(rng, small=True)])
+        ncallers = rng.choice([2, 3, 3, 3])
+        callers = [dict(ops=[copy.deepcopy(op) for _ in range(rng.choice([1, 1, 2]))], io=None, delay=rng.choice([0, 0, 3, 6, 9, 12, 15, 20])) for _ in range(ncallers)]
+        epochs = [dict(callers=callers, pre=[])]
+        if rng.random() < 0.4:
+            epochs.append(dict(callers=[dict(ops=[copy.deepcopy(op)], io=None)], pre=[]))
+        from . import c16
+        if rng.random() < 0.6:
+            # explicit schedule in long segments: one caller runs for a while, then another
+            tape = []
+            for _ in range(rng.choice([4, 8, 12])):
+                tape += [rng.randrange(0, ncallers + 1)] * rng.choice([1, 2, 4, 7, 11, 16])
+            sched = dict(kind='abs', tape=tape)
+        else:
+            sched = c16.gen_sched(rng)
+        work = rng.choice([0, 2, 5, 9])
+        if rng.random() < 0.4:
+            # staggered arrivals in lock step: the second caller arrives while the first computes, the third after the first is done
+            sched = dict(kind='rr')
+            stag = [0, rng.choice([2, 3, 4, 5, 6]), rng.choice([8, 10, 12, 14, 16, 18, 20, 24, 28])]
+            for c, d in zip(callers, stag):
+                c['delay'] = d
+            work = rng.choice([3, 5, 9])
+        return dict(mode='history', epochs=epochs, sched=sched, faults=[], func_fail_at=rng.choice([[], [1], [1], [1, 2], [2]]), gran='sync', work=work)
     # a small pool of operations so that callers collide on keys
     pool = [gen_op(rng, small=rng.random() < 0.9) for _ in range(rng.choice([1, 2, 2, 3]))]
     if rng.random() < 0.6:
@@ -300,7 +327,7 @@ def apply_garbage(g, cachedir):
 
 # ---------------------------------------------------------------------- history mode
 
-def _hook_factory(sim, fail_at, models_hist):
+def _hook_factory(sim, fail_at, models_hist, work=0):
     from . import c18_funcs as F
 
     def hook(event, key):
@@ -309,6 +336,8 @@ def _hook_factory(sim, fail_at, models_hist):
             sim.probes[10] += 1
             n = int(sim.probes[10])
             sim.yield_point(K['ENTER'], cid, n)
+            for _ in range(work):
+                sim.yield_point(K['MARK'], 8)   # the wrapped function takes a while (it is expensive: that is why it is memoised)
             if n in fail_at:
                 sim.probes[11] += 1
                 sim.log(K['F_BOMB'], cid, n)
@@ -330,12 +359,14 @@ def _hook_factory(sim, fail_at, models_hist):
     return hook
 
 
-def _caller_main(sim, caller, cachedir, resfile, fail_at):
+def _caller_main(sim, caller, cachedir, resfile, fail_at, work=0):
     from . import c18_funcs as F
-    F.HOOK = _hook_factory(sim, fail_at, None)
+    F.HOOK = _hook_factory(sim, fail_at, None, work)
     io_plan = caller.get('io')
     filesim.set_plan(_io_plan(io_plan))
     code = 0
+    for _ in range(int(caller.get('delay', 0))):
+        sim.yield_point(K['MARK'], 7)   # a caller that arrives late
     try:
         with open(resfile, 'ab', buffering=0) as out:
             for oi, op in enumerate(caller['ops']):
@@ -408,7 +439,7 @@ def run_history(case):
                         pid = sim.fork()
                         if pid == 0:
                             try:
-                                _caller_main(sim, caller, cachedir, resfile, fail_at)
+                                _caller_main(sim, caller, cachedir, resfile, fail_at, int(case.get('work', 0)))
                             finally:
                                 os._exit(9)
                         pids.append(pid)
